@@ -39,18 +39,21 @@ def walk_syms(obj):
     elif isinstance(obj, asyncio.Future) and obj.done(): yield from walk_syms(obj.result())
 
 
-def relabel(obj, deg):
+def relabel(obj, deg, opened=False):
     from mpyc import finfields, asyncoro
-    if isinstance(obj, SymInt): return obj.relabel(deg)
+    if isinstance(obj, SymInt):
+        r = obj.relabel(deg)
+        if opened: r.opened = True
+        return r
     if isinstance(obj, finfields.FiniteFieldElement):
         if isinstance(obj.value, SymInt):
-            new = type(obj).__new__(type(obj)); new.value = obj.value.relabel(deg); return new
+            new = type(obj).__new__(type(obj)); new.value = relabel(obj.value, deg, opened); return new
         return obj
     if isinstance(obj, asyncoro.SecureObject):
-        obj.share = relabel(obj.share, deg); return obj
-    if isinstance(obj, list): return [relabel(x, deg) for x in obj]
-    if isinstance(obj, tuple): return tuple(relabel(x, deg) for x in obj)
-    if isinstance(obj, asyncio.Future) and obj.done(): return done_future(relabel(obj.result(), deg))
+        obj.share = relabel(obj.share, deg, opened); return obj
+    if isinstance(obj, list): return [relabel(x, deg, opened) for x in obj]
+    if isinstance(obj, tuple): return tuple(relabel(x, deg, opened) for x in obj)
+    if isinstance(obj, asyncio.Future) and obj.done(): return done_future(relabel(obj.result(), deg, opened))
     return obj
 
 
@@ -59,9 +62,9 @@ def max_deg(obj):
 
 
 class Harness:
-    def __init__(self, k=2, no_prss=False, tv=1, stub_random_bits=True, stub_is_zero_public=True):
+    def __init__(self, k=2, no_prss=False, tv=1, stub_random_bits=True, stub_is_zero_public=True, stub_reciprocal=True):
         self.k, self.no_prss, self.tv = k, no_prss, tv
-        self.stub_random_bits, self.stub_izp = stub_random_bits, stub_is_zero_public
+        self.stub_random_bits, self.stub_izp, self.stub_reciprocal = stub_random_bits, stub_is_zero_public, stub_reciprocal
         self.installed = False
         self.prf_memo = {}
         self.calls = {}
@@ -99,7 +102,7 @@ class Harness:
                 y = with_t0(H.real['output'], x, receivers, None, raw)
             finally:
                 C.nonaffine_ok -= 1
-            return relabel(y, 0)
+            return relabel(y, 0, opened=True)
 
         def _reshare(x):
             H.count('_reshare')
@@ -151,6 +154,18 @@ class Harness:
             if not isinstance(val, SymInt): return val == 0
             return C.branch(is_zero_formula(val))
 
+        def reciprocal(a):
+            """contract: a * result == 1 in the field (a != 0); only public-constant arguments are supported symbolically"""
+            H.count('reciprocal*')
+            stype = type(a)
+            v = a.share.value if hasattr(a.share, 'value') else a.share.result().value
+            if isinstance(v, SymInt) and not v.is_const:
+                raise Concretised('reciprocal of a symbolic value (checked by enumeration instead)')
+            v = v.lo if isinstance(v, SymInt) else v
+            if v % stype.field.modulus == 0: raise ZeroDivisionError('reciprocal of 0')
+            inv = pow(int(v), -1, stype.field.modulus) << stype.frac_length
+            return stype(stype.field(inv))
+        if self.stub_reciprocal: rt.reciprocal = reciprocal
         rt.output = output
         rt._reshare = _reshare
         rt._distribute = _distribute
